@@ -40,6 +40,15 @@ func rtGenBoxes(r *rand.Rand, n, layout, coord int) []rtree.Box {
 		case 7: // every item the same degenerate point (with the matching translation: the all-zero box)
 			c := float64(coord / 2)
 			b = rtree.Box{MinX: c, MinY: c, MaxX: c, MaxY: c}
+		case 8: // the first item is the point (c, c) - the origin after the translation by -c, and with record id 0 the
+			// all-zero entry - and every other item lies strictly beyond it: bounds and searches must count it in
+			c := float64(coord / 2)
+			if i == 0 {
+				b = rtree.Box{MinX: c, MinY: c, MaxX: c, MaxY: c}
+			} else {
+				x, y := c+1+float64(r.Intn(coord/2)), c+1+float64(r.Intn(coord/2))
+				b = rtree.Box{MinX: x, MinY: y, MaxX: x + float64(r.Intn(2)), MaxY: y + float64(r.Intn(2))}
+			}
 		case 4: // collinear
 			b = rtree.Box{MinX: x, MinY: 3, MaxX: x + w, MaxY: 3}
 		case 5: // clustered
@@ -91,6 +100,9 @@ func rtGen(r *rand.Rand, n int, tier string, emit func(Case)) {
 			if r.Intn(2) == 0 {
 				off = -(coord / 2)
 			}
+		}
+		if i%10 == 4 {
+			layout, idbase, off = 8, 0, -(coord / 2)
 		}
 		emit(Case{"n": sz, "layout": layout, "seed": r.Int63(), "searches": searches, "coord": coord, "idbase": idbase, "off": off})
 	}
